@@ -78,7 +78,7 @@ def sensitivity():
     first = collections.Counter(); final = collections.Counter(); n = 0
     for d in sorted(glob.glob(os.path.join(R, 'seeded', '*C*-*'))):
         m = load(os.path.join(d, 'meta.json'), {})
-        prop = m.get('property') or os.path.basename(d).split('-')[0].replace('R2', '').replace('R3', '')
+        prop = m.get('property') or __import__('re').sub(r'^R\d', '', os.path.basename(d).split('-')[0])
         cur = {c.split(':rc=')[0]: c.split(':rc=')[1] for c in m.get('confirmed', {}).get('checks_run', [])}
         fv = {c.split(':rc=')[0]: c.split(':rc=')[1] for c in (m.get('first_verdict') or m.get('confirmed', {}).get('checks_run', []))}
         if prop not in cur:
@@ -100,7 +100,7 @@ def sensitivity():
             return 'caught, no failing input' if 'no-failing-input-found' in log else 'caught'
         first[cls(fv.get(prop, cur[prop]), 'first')] += 1
         final[cls(cur[prop], 'final')] += 1
-    out.insert(0, f"**Summary.** {n} confirmed seeded changes (three rounds; every later round was asked for subtler triggers and given the earlier "
+    out.insert(0, f"**Summary.** {n} confirmed seeded changes (up to four rounds per property; every later round was asked for subtler triggers and given the earlier "
                   f"rounds' summaries to avoid).  First run against the registered check: {dict(first)}.  After strengthening the checks "
                   f"(generators/oracles/theorems extended, never loosened): {dict(final)}.\n")
     out.append('\n**Own mutation catalogue** (`tools/mutations/`, incl. the inverse of every `fix:` commit): ' +
